@@ -41,11 +41,12 @@ def run(ctx: Ctx) -> None:
             want = E.outcome_of_state(st)
             if "err" in i:
                 ctx.violation(f"valid expression raises {i['exc']}", {"tree": T.to_json(e), "string": T.render(e, T.Style(ctx.rng, 'min', 'upper', 'one')).strip(),
-                              "rc": c["rc"], "expected_state": st}, key=f"raise:{T.to_json(e)}")
+                              "rc": c["rc"], "expected_state": st, "same_tree_object_evaluated_before_under": c.get("same_tree_object_evaluated_before_under", [])}, key=f"raise:{T.to_json(e)}")
             elif (i["fulfilled"], i["conditional"]) != want:
                 ctx.violation("requirement outcome differs from the compositional semantics",
                               {"tree": T.to_json(e), "string": T.render(e, T.Style(ctx.rng, 'min', 'upper', 'one')).strip(), "rc": c["rc"], "expected_state": st,
-                               "expected": want, "got": [i["fulfilled"], i["conditional"]]}, key=f"outcome:{T.to_json(e)}:{sorted(c['rc'].items())}")
+                               "expected": want, "got": [i["fulfilled"], i["conditional"]],
+                               "same_tree_object_evaluated_before_under": c.get("same_tree_object_evaluated_before_under", [])}, key=f"outcome:{T.to_json(e)}:{sorted(c['rc'].items())}")
     for c in cases[:: max(1, len(cases) // 6)][:6]:
         ctx.sample({"tree": T.to_json(c["e"]), "rc": c["rc"], "impl": c["impl"]})
     EC.compare(ctx, cases, gate=["fulfilled", "conditional"], advisory=["fce", "hints"], name="evalRc")
@@ -58,6 +59,9 @@ def replay(ctx: Ctx, data) -> int:
     evalenv.configure_cer_based()
     r = data["replay"]
     e = T.from_json(r["tree"])
-    i = E.eval_rc(T.to_lark(e), r["rc"], EC.hints_for(e))
+    tree = T.to_lark(e)
+    for earlier in r.get("same_tree_object_evaluated_before_under", []):
+        E.eval_rc(tree, earlier, EC.hints_for(e))
+    i = E.eval_rc(tree, r["rc"], EC.hints_for(e))
     print("impl:", i, "expected state:", r.get("expected_state"))
     return 0 if (i.get("fulfilled"), i.get("conditional")) == E.outcome_of_state(r["expected_state"]) else 1
